@@ -15,7 +15,7 @@ TRUSTED_BASE = ["Model/Engine.v + Model/Rfb.v (handler family) hand-written; for
                 "are outside the bound, as RFB defines them"]
 ASSUMPTIONS = ["bytes are 0..255", "the bound is on handler invocations: n <= 3*len(stream) + 4; loops inside handlers are "
                "structural recursions over the received block / the inflated tile stream"]
-EXTRA_VO = ["Proofs/RfbTie.vo"]
+EXTRA_VO = ["Proofs/RfbTieHandshake.vo", "Proofs/RfbTieMessages.vo"]
 
 
 def mutate(rng, s, data):
